@@ -35,6 +35,7 @@ pub fn string_replace_range(s: &mut String, r: Range<usize>, t: &str)
 //@ rewrite string_replace_range string_len
 //@ lift pub fn to_text_changes_closure(change: TextDocumentContentChangeEvent, temp_text: &mut String) -> (out: TextChange)
 //@ sig
+    requires text_fits(old(temp_text)@),
     ensures
         // "each relative to its predecessor": positions are resolved against the text left by the previous change
         change.range is Some ==> out.range.start == idx_of(change.range->0.start, old(temp_text)@) && out.range.end == idx_of(change.range->0.end, old(temp_text)@), //# to_text_changes::ranged_change_relative_to_predecessor
